@@ -84,7 +84,9 @@ Record inv (X W D T : list nat) (G : GH) (s : st) : Prop := {
               end;
   i_log_nd : NoDup (dlog s);
   i_log   : forall o, In o (dlog s) <-> (is_obj_tag (tagof s o) /\ (alive s o = false \/ In o D));
-  i_D     : forall o, In o D -> alive s o = true /\ is_obj_tag (tagof s o)
+  i_D     : forall o, In o D -> alive s o = true /\ is_obj_tag (tagof s o);
+  i_cur_str : forall d st, alive s d = true -> tagof s d = TO KDev -> ~ In d W ->
+              hptr s (ocur s d) = Some st -> odev s st = Some d
 }.
 
 End WithVkind.
